@@ -134,6 +134,9 @@ META["rule"] += (
 META["rule"] += (
     " " + 'Added after the sixth round: every evaluation compares the node lists handed over with what was meant (a measure reads them).')
 
+META["rule"] += (
+    " " + 'Added after the seventh round: compiled / sparse clustering twins on directed networks; blocks returned by the layer accessors are edited by the caller and asked again.')
+
 RT = 1e-10
 LW = "lw"
 
